@@ -481,3 +481,55 @@ pub fn check_output_origins(pool: &Pool, case: &Case, j: usize, out: &psbt::Outp
     }
     bad
 }
+
+/// Non-malleability proxy for a (non-malleable) satisfaction of a miniscript-carrying output:
+/// is there a key whose valid signature is in the witness although the spending condition,
+/// with the time locks of THIS transaction and the preimages in the witness, holds without it?
+/// (A third party can then replace that signature by the empty vector.)
+pub fn unneeded_signature(pool: &Pool, case: &Case, j: usize, script_sig: &ScriptBuf, witness: &Witness) -> Option<usize> {
+    let m = &case.inputs[j];
+    let items: Vec<Vec<u8>> = match m.outer {
+        Outer::Wsh | Outer::ShWsh => {
+            let w: Vec<Vec<u8>> = witness.iter().map(|x| x.to_vec()).collect();
+            if w.is_empty() {
+                return None;
+            }
+            w[..w.len() - 1].to_vec()
+        }
+        Outer::Sh => {
+            let p = pushes(script_sig).ok()?;
+            if p.is_empty() {
+                return None;
+            }
+            p[..p.len() - 1].to_vec()
+        }
+        _ => return None,
+    };
+    let msg = m.ecdsa_msg?;
+    let version = case.tx.version.0;
+    let lock_time = case.tx.lock_time.to_consensus_u32();
+    let seq = case.tx.input[j].sequence.0;
+    let signed: Vec<usize> = (0..m.keys.len()).filter(|i| items.iter().any(|it| ecdsa_ok(pool, &msg, &pool.keys[m.keys[*i]].pk, it))).collect();
+    fn ev(p: &Pol, have: &dyn Fn(usize) -> bool, hash: &dyn Fn(usize) -> bool, version: i32, lock_time: u32, seq: u32) -> bool {
+        match p {
+            Pol::Key(i) => have(*i),
+            Pol::Older(n) => older_ok(version, seq, *n),
+            Pol::After(n) => after_ok(lock_time, seq, *n),
+            Pol::Hash(k) => hash(*k),
+            Pol::And(v) => v.iter().all(|x| ev(x, have, hash, version, lock_time, seq)),
+            Pol::Or(v) => v.iter().any(|x| ev(x, have, hash, version, lock_time, seq)),
+            Pol::Thresh(k, v) => v.iter().filter(|x| ev(x, have, hash, version, lock_time, seq)).count() >= *k,
+        }
+    }
+    let hash = |kind: usize| {
+        let target = hash_of(kind, &pool.preimages[kind]);
+        items.iter().any(|it| it.len() == 32 && hash_of(kind, it) == target)
+    };
+    for drop in &signed {
+        let have = |i: usize| signed.contains(&i) && i != *drop;
+        if ev(&m.pol, &have, &hash, version, lock_time, seq) {
+            return Some(*drop);
+        }
+    }
+    None
+}
